@@ -142,6 +142,9 @@ func VerifyFunc(pr *Prog, eff *Effects, fi *FuncInfo, opts VerifyOpts) (rep *Fun
 			}
 		}
 	}
+	if fi.Lit == nil {
+		x.rp = &ReplayInfo{X: x, FI: fi, Params: ps, Sig: sig}
+	}
 	for i, p := range ps {
 		if p == nil || p.Name() == "_" {
 			continue
@@ -356,7 +359,7 @@ func VerifyFunc(pr *Prog, eff *Effects, fi *FuncInfo, opts VerifyOpts) (rep *Fun
 					nm = fmt.Sprintf("%s/ensures[%s]", fi.Key, e.Name)
 				}
 				g := env.evalBool(e.Expr)
-				x.emit(fin, nm, "ensures", g, fi.Decl.Pos(), "postcondition: "+e.Text)
+				x.emit(fin, nm, "ensures", g, fi.Decl.Pos(), "postcondition: "+e.Text).Clause = e
 			}
 		}
 		if len(spec.EnsPanic) > 0 && pan != nil && !pan.dead() {
